@@ -84,6 +84,22 @@ def r1(model, rep):
         rep.violation("R1", construct, where, "an input counts as live when %s, expected %s" % (show_f(got), show_f(want)), "live test " + show_f(got))
     rep.instance("R1", construct + " first live input", where, ok, "form %s" % fm.form)
     rep.sample({"selection": {"form": fm.form, "over": over, "condition": show_f(got), "default": -1}})
+    # the laws call the selection with (parent states, input voltages), in this order
+    from ..laws import summarize_law, METH
+    okc = True
+    ncall = 0
+    for which in "IV":
+        o2, f2, lv, _ = summarize_law(model, "PMux", which, False)
+        for lf in lv:
+            for e in lf.events:
+                if e[0] == "pri":
+                    ncall += 1
+                    if not (e[1] == Sym(("name", "pstate")) and isinstance(e[2], Vec) and e[2].name == "vi"):
+                        okc = False
+                        rep.violation("R1", "components.PMux.%s" % METH[which], "%s:%d" % (rel, e[3]), "the input selection is called with (%s, %s), expected (parent states, input voltages)" % (show_value(e[1]), show_value(e[2])), "selection operands")
+    if ncall == 0:
+        raise AnalysisError("PMux laws do not call the input selection")
+    rep.instance("R1", "components.PMux laws call the selection with (states, voltages)", where, okc, "%d call sites on %s paths" % (ncall, "all"))
     # base class: always input 0; nobody else overrides
     bowner, bfn = model.method("_Component", "_get_pri_inp")
     rets = [n for n in ast.walk(bfn) if isinstance(n, ast.Return)]
